@@ -50,6 +50,23 @@ def run(ctx):
                 ctx.report("%s|pc=%d|%s" % (m["what"].split(":")[0], m["case"]["pc"], expr),
                            "%s: pc=%d expr=%r expected set=%s list=%s got=%s" % (
                                m["what"], m["case"]["pc"], expr, m["case"]["set"], m["case"]["list"], m["got"]), m)
+        # history independence: page counts and expressions whose textual concatenations collide (1 + "2-9" / 12 + "-9"),
+        # evaluated repeatedly in one process in different orders
+        cases = os.path.join(d, "hcases.ndjson")
+        res = vlib.run_tlc("Sel", "Sel_hist.cfg", workers=min(8, vlib.NCPU), timeout=1200, heap="8g", payloads={"CASE": cases})
+        if res.violated:
+            raise vlib.HarnessError("design model Sel violates its own invariant %s (Sel_hist.cfg)" % res.violated)
+        ev.tlc(res, "Sel_hist.cfg")
+        out = os.path.join(d, "hmism.ndjson")
+        p = vlib.sh([binp, "history", "--in", cases, "--out", out, "--seed", str(ctx.seed), "--passes", "4" if ctx.quick else "8"], timeout=3000)
+        hsumm = json.loads([l for l in p.stdout.splitlines() if l.startswith("SUMMARY ")][-1][8:])
+        if hsumm["cases"] != res.payload_counts.get("CASE", 0) or hsumm["cases"] == 0:
+            raise vlib.HarnessError("history replayer consumed %d of %d cases" % (hsumm["cases"], res.payload_counts.get("CASE", 0)))
+        ev.cov(history_evaluations=hsumm["evaluations"], history_passes=hsumm["passes"], history_cases=hsumm["cases"])
+        for m in vlib.read_ndjson(out):
+            expr = ",".join(m["case"].get("sel") or [])
+            ctx.report("%s|pc=%d|%s" % (m["what"].split(":")[1].strip() if ":" in m["what"] else m["what"], m["case"]["pc"], expr),
+                       "%s: pc=%d expr=%r expected set=%s got=%s" % (m["what"], m["case"]["pc"], expr, m["case"].get("set"), m["got"]), m)
         # syntax: code -> TLC
         rec = os.path.join(d, "records.ndjson")
         nstr = 3000 if ctx.quick else 40000
